@@ -416,7 +416,7 @@ pub fn run(ctx: &Ctx) -> Report {
     if rep.has_violation() {
         return rep;
     }
-    rep.add(run_part(ctx, "random-histories", ctx.cases(6_000, 300_000), strategy, check, &[]));
+    rep.add(run_part(ctx, "random-histories", ctx.cases(6_000, 200_000), strategy, check, &[]));
     rep
 }
 
